@@ -82,7 +82,7 @@ Proof.
     apply last_indep. discriminate.
 Qed.
 
-Theorem retry_spec : forall A (att : M A) r n, r < usize_max ->
+Theorem retry_spec : forall A (att : M A) r n,
   let l := retry_outcomes (S (N.to_nat r)) att n in
   (* at most r+1 attempts, at least one *)
   (1 <= length l <= N.to_nat r + 1)%nat
@@ -93,20 +93,20 @@ Theorem retry_spec : forall A (att : M A) r n, r < usize_max ->
   (* and it stops early only on a success or a non-timeout failure *)
   /\ ((length l < N.to_nat r + 1)%nat -> is_timeout (last l (att n)) = false).
 Proof.
-  intros A att r n Hr l. subst l. repeat split.
+  intros A att r n l. subst l. repeat split.
   - cbn [retry_outcomes length]. lia.
   - pose proof (retry_outcomes_length A (S (N.to_nat r)) att n). lia.
-  - unfold retry_on_timeout. destruct (usize_max <=? r) eqn:E; [lia|]. apply retry_loop_result.
+  - unfold retry_on_timeout. apply retry_loop_result.
   - intros pre x post H Hp. exact (retry_outcomes_only_after_timeout A _ att n pre x post H Hp).
   - intro H. apply retry_outcomes_stop. lia.
 Qed.
 
 (* if every attempt times out, the query fails with a receive/send-class error *)
-Theorem retry_all_timeout : forall A (att : M A) r n, r < usize_max ->
+Theorem retry_all_timeout : forall A (att : M A) r n,
   (forall m, is_timeout (att m) = true) ->
   exists e n', retry_on_timeout r att n = (Err e, n') /\ timeout_class e = true.
 Proof.
-  intros A att r n Hr Hall. unfold retry_on_timeout. destruct (usize_max <=? r) eqn:E; [lia|]. clear E Hr.
+  intros A att r n Hall. unfold retry_on_timeout.
   generalize (N.to_nat r) as k. intro k. generalize PacketReceive as last_e. revert n.
   induction k as [|k IH]; intros n last_e.
   - cbn [retry_loop]. pose proof (Hall n) as H. unfold is_timeout in H.
@@ -127,10 +127,10 @@ Inductive timeouts_then {A} (att : M A) : nat -> net -> net -> Prop :=
             timeouts_then att j n' m -> timeouts_then att (S j) n m.
 
 Theorem retry_first_reply_wins : forall A (att : M A) r j n m,
-  r < usize_max -> (j <= N.to_nat r)%nat -> timeouts_then att j n m -> is_timeout (att m) = false ->
+  (j <= N.to_nat r)%nat -> timeouts_then att j n m -> is_timeout (att m) = false ->
   retry_on_timeout r att n = att m.
 Proof.
-  intros A att r j n m Hr Hj Ht Hm. unfold retry_on_timeout. destruct (usize_max <=? r) eqn:E; [lia|]. clear E Hr.
+  intros A att r j n m Hj Ht Hm. unfold retry_on_timeout.
   revert Hj. generalize (N.to_nat r) as k. generalize PacketReceive as last_e.
   induction Ht as [n|j n e n' m Hatt Hcls Ht IH]; intros last_e k Hj.
   - cbn [retry_loop]. unfold is_timeout in Hm. destruct (att n) as [[a|e| | |] n']; cbn [fst] in Hm; try reflexivity.
@@ -143,7 +143,3 @@ Proof.
     rewrite Hatt, Hcls. apply IH; [exact Hm|lia].
 Qed.
 
-(* usize::MAX retries: retry_count += 1 overflows *)
-Theorem retry_usize_max_panics : forall A (att : M A) n,
-  fst (retry_on_timeout usize_max att n) = Panic site_add_overflow.
-Proof. intros. unfold retry_on_timeout. rewrite N.leb_refl. reflexivity. Qed.
